@@ -22,11 +22,16 @@ Section Order.
     | Some t, _, _ => (ROk t, lg)
     | None, Some v, _ => (ROk v, lg)
     | None, None, Some c => rs E c true d lg
-    | None, None, None => (ROk (VErr (EBinding name)), lg)
+    | None, None, None =>
+        match e_now E with          (* no clock = the compiler folding constants: the evaluation ends *)
+        | None => (RErr (EBinding name), lg)
+        | Some _ => (ROk (VErr (EBinding name)), lg)
+        end
     end.
   Proof.
     unfold resolve_ident. destruct (env_type E name); [reflexivity|].
-    destruct (env_param E name); [reflexivity|]. destruct (assoc name (e_progs E)); reflexivity.
+    destruct (env_param E name); [reflexivity|]. destruct (assoc name (e_progs E)); [reflexivity|].
+    destruct (e_now E); reflexivity.
   Qed.
 
   Corollary type_wins name t lg : env_type E name = Some t -> resolve_ident rs E d name lg = (ROk t, lg).
@@ -41,10 +46,10 @@ Section Order.
     resolve_ident rs E d name lg = rs E c true d lg.
   Proof. intros H1 H2 H3. rewrite resolve_order, H1, H2, H3. reflexivity. Qed.
 
-  Corollary unbound_fails name lg :
-    env_type E name = None -> env_param E name = None -> assoc name (e_progs E) = None ->
+  Corollary unbound_fails name lg t :
+    env_type E name = None -> env_param E name = None -> assoc name (e_progs E) = None -> e_now E = Some t ->
     resolve_ident rs E d name lg = (ROk (VErr (EBinding name)), lg).
-  Proof. intros H1 H2 H3. rewrite resolve_order, H1, H2, H3. reflexivity. Qed.
+  Proof. intros H1 H2 H3 H4. rewrite resolve_order, H1, H2, H3, H4. reflexivity. Qed.
 
   (* ---- call position -------------------------------------------------------------- *)
 
